@@ -12,7 +12,7 @@ CONSTANTS
   Dynamic = TRUE
   MaxNodes = 17
 VIEW View
-INVARIANT TouchedInside
+PROPERTY TouchedInside
 INVARIANT CwdInside
 INVARIANT CwdPlain
 PROPERTY FailNoEffect
